@@ -265,16 +265,17 @@ class SSHConfig:
             ):
                 continue
             for key, value in context["config"].items():
-                if key not in options:
+                if key == "identityfile":
+                    # accumulates over all matching blocks, each file once
+                    # (also when one block lists the same file twice)
+                    seen = options.setdefault(key, [])
+                    seen.extend(x for x in value if x not in seen)
+                elif key not in options:
                     # Create a copy of the original value,
                     # else it will reference the original list
                     # in self._config and update that value too
                     # when the extend() is being called.
                     options[key] = value[:] if value is not None else value
-                elif key == "identityfile":
-                    options[key].extend(
-                        x for x in value if x not in options[key]
-                    )
         if final:
             # Expand variables in resulting values
             # (besides 'Match exec' which was already handled above)
